@@ -60,7 +60,20 @@ def run(ctx):
             rng.shuffle(pairs)
             if pairs:
                 jobs.append({"type": "map", "id": f"map-{fn}-{k}", "path": os.path.join(VERIF, "corpus", fn), "pairs": pairs, "find_gaps": bool(k % 2)})
+    # the adapter tool: an external tool's listing imported onto a structure (CSV, JSON, BPSEQ, printed notation)
+    for ext in (False, True):
+        jobs.append({"type": "adapter", "id": "adapter-fr3d-184D" + ("-e" if ext else ""), "path": os.path.join(VERIF, "corpus", "184D.cif"),
+                     "external": os.path.join(VERIF, "corpus", "184D-fr3d.txt"), "tool": "fr3d", "extended": ext})
+    # the other command-line tools: clash report and CSV, element listing, mmCIF item editing
     os.makedirs(os.path.join(BUILD, "c14"), exist_ok=True)
+    dbn = os.path.join(BUILD, "c14", "knot.dbn")
+    open(dbn, "w").write(">knot\nGGGGAAACCCCAAAGGGGAAACCCCAAAGGGAAACCCAAA\n((((...[[[[...))))...]]]]...(((...)))...\n")
+    jobs.append({"type": "tool", "id": "tool-clashfinder", "module": "rnapolis.clashfinder",
+                 "argv": [os.path.join(VERIF, "corpus", "1E7K_1_C.cif"), "--ignore-occupancy", "--enable-molprobity-mode", "--csv", "{d}/clashes.csv"]})
+    jobs.append({"type": "tool", "id": "tool-motif-extractor", "module": "rnapolis.motif_extractor", "argv": ["--dbn", dbn]})
+    jobs.append({"type": "tool", "id": "tool-motif-extractor-pk", "module": "rnapolis.motif_extractor", "argv": ["--dbn", dbn, "--remove-pseudoknots"]})
+    jobs.append({"type": "tool", "id": "tool-transformer", "module": "rnapolis.transformer",
+                 "argv": [os.path.join(VERIF, "corpus", "1DFU_1_M-N.cif"), "{d}/out.cif", "--category", "atom_site", "--replace", "auth_asym_id", "--values", "ZYXWVUTS"]})
     jobfile = os.path.join(BUILD, "c14", "jobs.json")
     json.dump(jobs, open(jobfile, "w"))
     seeds = ["0", "1", "2", "random"] if ctx.quick else ["0", "1", "2", "3", "4", "5", "17", "4242", "random", "random"]
